@@ -15,3 +15,13 @@ Definition param_names (inv : list entry) : list string :=
 Definition buffer_names (inv : list entry) : list string :=
   map (fun e => fst (fst e)) (filter (fun e => match snd (fst e) with Buffer => true | _ => false end) inv).
 Definition mem (n : string) (l : list string) : bool := existsb (String.eqb n) l.
+
+(* correspondence: the runtime module's own registries (named_buffers / named_parameters / state_dict keys, own
+   entries only, optional entries allowed to be absent) agree with the inventory regenerated from the source *)
+Definition subset (a b : list string) : bool := forallb (fun n => mem n b) a.
+Definition inv_runtime_ok (inv : list entry) (optional persistent_buffers nonpersistent_buffers params : list string) : bool :=
+  subset persistent_buffers (map (fun e => fst (fst e)) (filter (fun e => match e with (_, Buffer, true) => true | _ => false end) inv)) &&
+  subset nonpersistent_buffers (map (fun e => fst (fst e)) (filter (fun e => match e with (_, Buffer, false) => true | _ => false end) inv)) &&
+  subset params (param_names inv) &&
+  (* every inventory name is present at runtime in exactly the role(s) the inventory allows *)
+  forallb (fun n => mem n optional || mem n persistent_buffers || mem n nonpersistent_buffers || mem n params) (names inv).
